@@ -14,7 +14,7 @@ def matmul(*operands):
 
     This implementation is faster compared to standard multiplication via the @ operator.
     """
-    if any(isinstance(entry, CObs) for o in operands for entry in o.ravel()):
+    if any(isinstance(entry, (CObs, complex, np.complexfloating)) for o in operands for entry in o.ravel()):
         extended_operands = []
         for op in operands:
             tmp = np.vectorize(lambda x: (np.real(x), np.imag(x)), otypes=[object, object])(op)
